@@ -498,6 +498,24 @@ func c14Polygons(c *fw.Ctx, idx int) {
 		}
 		polys = append(polys, p)
 	}
+	// one set in four also has members without area (a ring that goes out and
+	// comes back, or whose vertices are collinear): they weigh nothing in an
+	// area-weighted mean, wherever they stand in the list
+	if r.Chance(1, 4) {
+		for k := r.Range(1, 2); k > 0; k-- {
+			a := ipt{ox + int64(r.Range(0, 4*int(cell))), oy + int64(r.Range(0, 4*int(cell)))}
+			d := ipt{int64(r.Range(-int(cell), int(cell))), int64(r.Range(-int(cell), int(cell)))}
+			b := ipt{a.x + d.x, a.y + d.y}
+			cc := ipt{a.x + 2*d.x, a.y + 2*d.y}
+			ring := []ipt{a, b, cc, b, a}
+			if r.Bool() {
+				ring = []ipt{a, b, cc, a}
+			}
+			at := r.Intn(len(polys) + 1)
+			polys = append(polys[:at], append([]c14poly{{ring}}, polys[at:]...)...)
+		}
+		c.Count("sets_with_members_of_zero_area")
+	}
 	layout := c14Layouts[r.Intn(4)]
 	desc := map[string]any{"layout": layout.String()}
 	for i, p := range polys {
